@@ -123,12 +123,17 @@ def worker(task):
         entry_env = fv.ex.entry.env if fv.ex.entry else {}
         retries = 0        # extended retries are expensive: at most three per function
         unknowns = 0
+        only = os.environ.get('PYVC_ONLY')        # debugging aid for --func runs: discharge matching obligations only
+        if only:
+            obs = [ob for ob in obs if all(part in (ob.name + ' ' + str(ob.trail)) for part in only.split('&&'))]
         for ob in obs:
             # once several obligations of a function are undecided (typical for a changed function whose
             # proof no longer goes through) the remaining ones get a single solver attempt each
             r = discharge(ob, timeout_ms, single=unknowns >= 4)
             if r.status == 'unknown':
                 unknowns += 1
+            if os.environ.get('PYVC_PROGRESS'):
+                print(f'  .. {r.status:10s} {r.time_s:7.1f}s {ob.name} {[t for t in ob.trail][-3:]}', file=sys.stderr, flush=True)
             if r.status == 'unknown' and ob.name in _BASELINE_NAMES and retries < 3:
                 retries += 1
                 # an obligation that is discharged on the committed baseline came back undecided: retry
